@@ -448,3 +448,33 @@ def final_deref_values(ev, env):
                 vals.append(v)
         out[base] = vals[0] if len(vals) == 1 else ("phi", tuple(vals))
     return out
+
+
+def feasible_variants(body, test_block):
+    """variants the matched place can still have at `test_block`, given earlier tests of the
+    same place that dominate it (drop elaboration re-tests discriminants on arms where the
+    variant is already known); None = unconstrained"""
+    variants, adt_, place = discr_variants(body, test_block)
+    if not variants:
+        return None
+    pk = place_key(place)
+    allowed = None
+    for sb in sorted(body.live_blocks()):
+        if sb == test_block or not body.dominates(sb, test_block):
+            continue
+        t = body.blocks[sb]["term"]
+        if t["k"] != "switch":
+            continue
+        v2, a2, p2 = discr_variants(body, sb)
+        if not v2 or place_key(p2) != pk:
+            continue
+        # the local must not be redefined between: temporaries holding call results are assigned once
+        listed = dict((v, tg) for v, tg in t["targets"])
+        ok_vals = set()
+        for v, n in v2:
+            tg = listed.get(v, t["otherwise"])
+            r = body.reachable(tg, avoid=[sb])
+            if test_block in r or tg == test_block:
+                ok_vals.add(n)
+        allowed = ok_vals if allowed is None else (allowed & ok_vals)
+    return allowed
